@@ -23,7 +23,10 @@ HOST = "gopher.example"
 
 
 def cps(l):
-    """list of code points -> Gallina list N literal"""
+    """list of code points -> Gallina list N literal (typed, so that a shard made only of
+    empty strings still has a type)"""
+    if not l:
+        return "(@nil N)"
     return "[" + ";".join(str(x) for x in l) + "]"
 
 
